@@ -8,6 +8,7 @@ def run(prog, rec, tier):
     M.steps()
     M.inverse()
     M.counter()
+    M.isolation()
     A = aes_rules.AesRules(prog, rec)
     A.key_load()
     rec.extra['explanation'] = (
